@@ -24,7 +24,7 @@ MANIFEST = dict(
     category="proof",
     text="Coq theorems on a model of the REPL bookkeeping (repl.rs evaluate/compact/keep_indices, worker.rs compact_locals/resume_process/get_result, executor.rs replace_locals/release_orphan_locals, compiler.rs local_count): the alignment invariant (every bound variable's slot holds its value) is preserved by compaction, by a successful line that stores every slot it binds, and by orphan release; a line rejected by the parser leaves the session identical, one rejected by the compiler leaves it observationally identical (get_variables order and every request_variable answer agree) up to the renumbering compaction applies first; folding an abstract step function line by line with the session threaded equals running the steps as one sequence for every way of cutting them into lines, as long as no intermediate result is nil. Validated, not proved: that the model is the code (differential execution of the extracted model against the real Repl after every line), and the end-to-end statement itself (real REPL lines vs the same steps compiled and run as one program, over all splittings of generated histories).",
     design_ref="§5 C11",
-    note="The compiler, parser and VM are not modelled here: the end-to-end equivalence is validated by real-vs-real search, not proved. The generator stays clear of known typing defects F13/F27 (no union-with-nil typed bindings or results feeding a later step) and of a previous result whose static type contains nil (the REPL types the next line's input with the unstripped type, the one-program compiler strips nil). Type aliases are hoisted to the front of the one-program text (the parser accepts them only before the first expression step). Trusted: Coq kernel, extraction (ExtrOcamlBasic), OCaml driver, Rust harness (in-memory Environment/Worker runner), Python generator/differ.",
+    note="F51 (a short-circuited line's unstored binders killed the session) is repaired in /repo and modelled as repaired (the REPL forgets variables at or beyond the locals count reported with the result). The compiler, parser and VM are not modelled here: the end-to-end equivalence is validated by real-vs-real search, not proved. The generator stays clear of known typing defects F13/F27 (no union-with-nil typed bindings or results feeding a later step) and of a previous result whose static type contains nil (the REPL types the next line's input with the unstripped type, the one-program compiler strips nil). Type aliases are hoisted to the front of the one-program text (the parser accepts them only before the first expression step). Trusted: Coq kernel, extraction (ExtrOcamlBasic), OCaml driver, Rust harness (in-memory Environment/Worker runner), Python generator/differ.",
     technique="Coq proof (bookkeeping model) + model/code correspondence by differential execution + real-vs-real metamorphic search (REPL lines vs one program, all splittings)",
 )
 
@@ -564,7 +564,8 @@ def cut_points(items):
         elif b["kind"] == "alias":
             forced.add(p)       # the parser accepts aliases only in front of the first expression
         elif a["kind"] == "step" and a.get("nil"):
-            forced.add(p)       # known defect (reported): a binding after a nil step in the same line
+            forced.add(p)       # (F51, repaired: a binder after a nil step in the same line is forgotten by the REPL;
+                                # the generator's value tracking does not follow that, the corpus histories do)
         else:
             free.append(p)
     return forced, free
@@ -663,7 +664,9 @@ def model_input(sess):
             continue
         if oc[0] not in ("ok", "none") or "binds" not in d:
             break
-        binds = "(binds %s)" % " ".join(to_text(b) for b in d["binds"])
+        # (the map as the compiler returned it: `binds-raw`; `binds` is what is left of it once the REPL
+        # has forgotten the variables the line never stored, which the model must predict)
+        binds = "(binds %s)" % " ".join(to_text(b) for b in d.get("binds-raw", d["binds"]))
         aliases = "(aliases %s)" % " ".join(d["aliases"])
         rn = "1" if d["lrtnil"] == ["true"] else "0"
         if oc[0] == "none":
@@ -1104,8 +1107,8 @@ def run(ctx):
     cov["generator_exclusions"] = (
         "kept out of generated histories (known findings, each probed separately in corpus/c11_known.txt): F13/F27 (no value or "
         "binding whose static type is a union with nil feeds a later step); F52 (no `~`-consuming line after a line whose static "
-        "type contains nil; a fallible literal-pattern step stays alone on its line); F51 (a line break is forced after a "
-        "nil-valued step); F53/F54 (C01: a name is rebound only if it was never bound to a tuple, by a destructuring pattern, "
+        "type contains nil; a fallible literal-pattern step stays alone on its line); a line break is still forced after a nil-valued step (F51, repaired: the REPL forgets the variables a "
+        "short-circuited line never stored; its reproducers are must-pass corpus histories); F53/F54 (C01: a name is rebound only if it was never bound to a tuple, by a destructuring pattern, "
         "from a bare variable/field reference or from the previous result, and never matched; `=b` does not bind the Ok of a "
         "preceding match step). Type aliases are hoisted to the front of the one-program text (the parser rejects an alias "
         "after an expression step, contrary to docs/spec.md); runtime errors are not generated.")
